@@ -13,6 +13,8 @@ pub mod c19;
 
 mod c18;
 
+pub mod c07;
+
 /// A component in a box, driven through the line protocol.
 pub trait VerifBox {
     /// Execute one operation and return its canonical observation.
@@ -35,6 +37,7 @@ pub fn new_box(area: &str) -> Option<Box<dyn VerifBox>> {
             crate::transport::manager::handle::verif_c10::AddrBox::new(),
         )),
         "c03" => Some(Box::new(crate::multistream_select::verif_c03::MssBox::new())),
+        "c07" => Some(Box::new(c07::C07Box::new())),
         _ => None,
     }
 }
@@ -50,6 +53,7 @@ pub fn areas() -> Vec<&'static str> {
         "c18",
         "c19",
     ]
+    vec!["c07", "c17"]
 }
 
 /// Decode a hex string.
